@@ -35,6 +35,7 @@ type Ctx struct {
 	presSeen    map[string]bool
 	presRels    []presRel // assumed "preserved(heap)" relations between heap versions (for light-query instances)
 	entryTyped  map[string]bool
+	fieldOwner  map[string]string // heap key of a struct field -> path of the declaring package ("+path": exported field of an exported type)
 	etypeSorts  map[string]bool // element sorts shared by slices of different element types in this function
 	qfAlt       map[string]string // define-fun with quantified body -> declare-fun (used by light queries)
 	errConsts   map[string]string
@@ -263,6 +264,19 @@ func (c *Ctx) structSort(t types.Type, u *types.Struct) string {
 	}
 	c.sortDone[name] = true
 	c.structOf[name] = u
+	if nt, ok := t.(*types.Named); ok && nt.Obj().Pkg() != nil {
+		if c.fieldOwner == nil {
+			c.fieldOwner = map[string]string{}
+		}
+		for i := 0; i < u.NumFields(); i++ {
+			f := u.Field(i)
+			owner := nt.Obj().Pkg().Path()
+			if f.Exported() && nt.Obj().Exported() {
+				owner = "+" + owner // writable by every package that (transitively) imports the owner
+			}
+			c.fieldOwner[c.fieldHeapKey(name, f.Name())] = owner
+		}
+	}
 	var fs []string
 	for i := 0; i < u.NumFields(); i++ {
 		f := u.Field(i)
